@@ -108,6 +108,42 @@ def set_default(program, keep):
     DEFAULT_PROGRAM, DEFAULT_KEEP = program, keep
 
 
+SLICE_HEADS = ("slice::split_first", "slice::first", "slice::split_last", "slice::last", "Vec::first", "Vec::last")
+_RANGE_FROM_1 = ("struct", "std::ops::RangeFrom", "RangeFrom", {"start": ("lit", "1")})
+
+
+def _let(pat, scr):
+    """the condition `let PAT = SCR`; `let Some(..) = xs.first() / xs.split_first()` (binders only) is `!xs.is_empty()`"""
+    if scr[0] == "call" and scr[1] in SLICE_HEADS and len(scr[2]) == 1 and re.fullmatch(r"(v1|Option)::Some\([$_(),]*\)", pat):
+        return ("op", "Not", [("call", "slice::is_empty", [scr[2][0]])])
+    return ("iflet", pat, scr)
+
+
+def peel_ty(t):
+    while t.startswith("&"):
+        t = t[1:].lstrip()
+        if t.startswith("mut "):
+            t = t[4:]
+    return t
+
+
+def _mk_if(c, t, e):
+    """if c {t} else {e} with the boolean identities applied"""
+    if t == ("lit", True) and e == ("lit", False):
+        return c
+    if e == ("lit", False):
+        return ("op", "&&", [c, t])
+    if t[0] == "call" and e[0] == "call" and t[1] == e[1] and len(t[2]) == len(e[2]) and t[1] not in ("then", "ok_or"):
+        # if c { f(x, a) } else { f(x, b) }  ==  f(x, if c { a } else { b })
+        diff = [i for i, (a, b) in enumerate(zip(t[2], e[2])) if a != b]
+        if len(diff) == 1:
+            i = diff[0]
+            args = list(t[2])
+            args[i] = _mk_if(c, t[2][i], e[2][i])
+            return ("call", t[1], args)
+    return ("if", c, t, e)
+
+
 def rewrite(t, fn):
     """rebuild a term bottom-up; fn(node) -> replacement or None"""
     k = t[0]
@@ -175,6 +211,7 @@ class Norm:
         self.keep = keep if keep is not None else DEFAULT_KEEP
         self._stack = _stack + (body.get("path"),)
         self._cur_depth = 0
+        self.call_depth = {}
         self.def_ctx = {}    # local id -> (closure depth, guards) at its `let`
         self.defs = {}       # local id -> binding record
         self.mut = set()     # ids declared `mut` or by-ref-mut
@@ -228,6 +265,19 @@ class Norm:
         if not isinstance(n, dict):
             return
         k = n.get("k")
+        if k in ("Call", "MethodCall"):
+            self.call_depth[id(n)] = depth
+        if k is None and "stmts" in n:
+            # statements after `if c { continue }` / `let PAT = X else { continue }` run under the complementary condition
+            g = guards
+            for st in n["stmts"]:
+                self._index(st, depth, g)
+                cg = _continue_guard(st)
+                if cg is not None:
+                    g = g + (cg,)
+            if "expr" in n:
+                self._index(n["expr"], depth, g)
+            return
         if k == "SLet":
             if n["pat"].get("k") == "Bind":
                 self.def_ctx[n["pat"]["id"]] = (depth, guards)
@@ -245,7 +295,7 @@ class Norm:
                 # the hidden `iter` binding
                 self._bind_pat(n["arms"][0]["pat"], ("let", n["scrut"]), ())
                 self._index(n["scrut"], depth, guards)
-                self._index(body, depth, guards + (("for", it),))
+                self._index(body, depth, guards + (("for", it, body),))
                 return
             elif n["src"].startswith("TryDesugar"):
                 pass
@@ -402,11 +452,16 @@ class Norm:
         rel = [g[len(lguards):] if g[:len(lguards)] == lguards else None for _n, _k, g in effs]
         if any(r is None for r in rel):
             return t
+        # (a) a Vec assembled by pushes: the list of its parts, in order
+        vt = self._vec_parts(init, effs, rel)
+        if vt is not None:
+            return vt
         # (b) push in a for loop
         if len(effs) == 1 and kinds[0] == "mutcall" and init[0] == "call" and init[1] in ("Vec::new", "Vec::with_capacity", "vec!", "Default::default") \
                 and (init[1] != "vec!" or not init[2]):
             node = effs[0][0]
-            if cshort(node.get("callee", "")) == "Vec::push" and len(rel[0]) == 1 and rel[0][0][0] == "for" and self._lhs_path(node["recv"]) == "":
+            if cshort(node.get("callee", "")) == "Vec::push" and len(rel[0]) == 1 and rel[0][0][0] == "for" and self._lhs_path(node["recv"]) == "" \
+                    and not _has_loop_exit(rel[0][0][2]):
                 it = self._t(rel[0][0][1])
                 x = self._t(node["args"][0])
                 d = depth + 1
@@ -425,10 +480,9 @@ class Norm:
                 body = rewrite(x, sub)
                 r = ("call", "Iterator::collect", [("call", "Iterator::map", [it, ("closure", d, 1, body)])])
                 return ("try", r) if hoist else r
-        # (c) one conditional reassignment
-        if len(effs) == 1 and kinds[0] == "assign" and len(rel[0]) == 1 and rel[0][0][0] == "if" and self._lhs_path(effs[0][0]["l"]) == "" and origin[0] == "let":
-            c = self._t(rel[0][0][1])
-            pol = rel[0][0][2]
+        # (c) one conditional reassignment (under any chain of `if` / match-arm guards)
+        if len(effs) == 1 and kinds[0] == "assign" and len(rel[0]) >= 1 and all(g[0] in ("if", "arm") for g in rel[0]) \
+                and self._lhs_path(effs[0][0]["l"]) == "" and origin[0] == "let":
             b = self._t(effs[0][0]["r"])
 
             def sub2(n):
@@ -436,8 +490,17 @@ class Norm:
                     return init
                 return None
             b = rewrite(b, sub2)
-            c = rewrite(c, sub2)
-            return ("if", c, b, init) if pol else ("if", c, init, b)
+            conds = []
+            for g in rel[0]:
+                if g[0] == "if":
+                    c = rewrite(self._t(g[1]), sub2)
+                    conds.append(c if g[2] else ("op", "Not", [c]))
+                else:
+                    conds.append(_let(g[2], self._t(g[1])))
+            c = conds[0]
+            for x in conds[1:]:
+                c = ("op", "&&", [c, x])
+            return _mk_if(c, b, init)
         # (c') deferred initialisation: every effect is an assignment in its own match arm / if branch
         if origin[0] == "uninit" and effs and all(k == "assign" for k in kinds) and all(len(r) >= 1 for r in rel):
             first = [r[0] for r in rel]
@@ -448,6 +511,44 @@ class Norm:
                 a, b = (effs[0][0]["r"], effs[1][0]["r"]) if first[0][2] else (effs[1][0]["r"], effs[0][0]["r"])
                 return ("if", self._t(first[0][1]), self._t(a), self._t(b))
         return t
+
+    def _vec_parts(self, init, effs, rel):
+        """let mut v = INIT; (v.push(x) under for / if / match-arm guards)*   ==   vec+(parts of INIT.., guarded x..)"""
+        if not effs or not all(k == "mutcall" and cshort(n.get("callee", "")) == "Vec::push" and self._lhs_path(n["recv"]) == "" for n, k, _g in effs):
+            return None
+        parts = []
+        if init[0] == "call" and init[1] in ("Vec::new", "Vec::with_capacity", "Default::default"):
+            pass
+        elif init[0] == "call" and init[1] == "vec!":
+            parts += list(init[2])
+        elif init[0] == "call" and init[1] == "Iterator::collect" and len(init[2]) == 1 and init[2][0][0] == "call" and init[2][0][1] == "Iterator::map" \
+                and init[2][0][2][1][0] == "closure" and init[2][0][2][1][2] == 1:
+            it, clo = init[2][0][2]
+            el = ("elem", it)
+            d = clo[1]
+            parts.append(("for", it, rewrite(clo[3], lambda n: el if n[0] == "cparam" and n[1] == d and n[2] == 0 else None)))
+        else:
+            return None
+        if not parts and len(effs) == 1 and len(rel[0]) == 1 and rel[0][0][0] == "for":
+            return None           # the plain map/collect form, (b) below
+        loops = set()
+        for (n, _k, _g), r in zip(effs, rel):
+            inner = self._t(n["args"][0])
+            for g in reversed(r):
+                if g[0] == "for":
+                    if id(g[1]) in loops or _has_loop_exit(g[2]):
+                        return None
+                    loops.add(id(g[1]))
+                    inner = ("for", self._t(g[1]), inner)
+                elif g[0] == "if":
+                    c = self._t(g[1])
+                    inner = ("if", c if g[2] else ("op", "Not", [c]), inner, ("lit", "()"))
+                elif g[0] == "arm":
+                    inner = ("if", _let(g[2], self._t(g[1])), inner, ("lit", "()"))
+                else:
+                    return None
+            parts.append(inner)
+        return ("call", "vec+", parts)
 
     def _canon_match(self, scr, arms):
         """two-arm option-like matches become if-let; arms without guards are sorted by pattern (catch-all last)"""
@@ -460,6 +561,18 @@ class Norm:
                 return self._iflet(p1, scr, b1, b2)
             if p1 in catch and p2 not in catch:
                 return self._iflet(p2, scr, b2, b1)
+        if all(g is None for _p, g, _b in arms) and any(b == ("lit", False) for _p, _g, b in arms) \
+                and all(b == ("lit", False) for p, _g, b in arms if p in ("_", "$")):
+            # boolean match: the disjunction of its non-false arms
+            alts = []
+            for p, _g, b in sorted([a for a in arms if a[2] != ("lit", False)], key=lambda a: a[0]):
+                alts.append(_let(p, scr) if b == ("lit", True) else ("op", "&&", [_let(p, scr), b]))
+            if not alts:
+                return ("lit", False)
+            r = alts[0]
+            for x in alts[1:]:
+                r = ("op", "||", [r, x])
+            return r
         if all(g is None for _p, g, _b in arms):
             last = [a for a in arms if a[0] in ("_", "$")]
             rest = [a for a in arms if a[0] not in ("_", "$")]
@@ -473,16 +586,14 @@ class Norm:
                 and _show(then[2][0]) == _show(("proj", scr, pat.split("(")[0], "0")) and els[0] == "call" and els[1] == "Err" and len(els[2]) == 1:
             return ("call", "ok_or", [scr, els[2][0]])
         if _diverges(then) and _is_unit(els):
-            return ("early", [(("iflet", pat, scr), then)], ("lit", "()"))
-        if then == ("lit", True) and els == ("lit", False):
-            return ("iflet", pat, scr)        # matches!(x, PAT)
-        return ("if", ("iflet", pat, scr), then, els)
+            return ("early", [(_let(pat, scr), then)], ("lit", "()"))
+        return _mk_if(_let(pat, scr), then, els)        # matches!(x, PAT) == let PAT = x
 
-    def _inline_call(self, callee, arg_nodes, node):
-        """term of a call to a repo-local helper that no rule names: the helper's own term with arguments substituted"""
+    def transparent_fn(self, callee, nargs=None):
+        """the body of a repo-local helper that rules look through (private, non-recursive, named by no rule), else None"""
         if self.program is None or self.keep is None or not callee.startswith(LOCAL_CRATES):
             return None
-        if cshort(callee) in self.keep or callee in self._stack or len(self._stack) > INLINE_MAX_DEPTH:
+        if cshort(callee) in self.keep:
             return None
         fn = self.program.body(callee)
         if fn is None:
@@ -495,18 +606,29 @@ class Norm:
                     if _re.sub(r"::<[^>]*(<[^>]*>[^>]*)*>", "", pth) == base:
                         fn = b
                         break
-        if fn is None or "body" not in fn or fn.get("dk") not in ("Fn", "AssocFn") or len(fn.get("params", [])) != len(arg_nodes):
+        if fn is None or "body" not in fn or fn.get("dk") not in ("Fn", "AssocFn"):
             return None
-        if fn["path"] in self._stack or fn.get("pub"):
+        if nargs is not None and len(fn.get("params", [])) != nargs:
+            return None
+        if fn.get("pub"):
             return None       # public API functions keep their name; only private / nested helpers are transparent
         if any(x.get("k") in ("Call", "MethodCall") and x.get("callee") == fn["path"] for x in walk(fn["body"])):
             return None       # recursive helper
+        return fn
+
+    def _inline_call(self, callee, arg_nodes, node):
+        """term of a call to a repo-local helper that no rule names: the helper's own term with arguments substituted"""
+        if callee in self._stack or len(self._stack) > INLINE_MAX_DEPTH:
+            return None
+        fn = self.transparent_fn(callee, len(arg_nodes))
+        if fn is None or fn["path"] in self._stack:
+            return None
         sub = Norm(fn, program=self.program, keep=self.keep, _stack=self._stack)
         t = sub.term(fn["body"])
         if len(_show(t)) > INLINE_MAX_SIZE:
             return None
         args = [self._t(a) for a in arg_nodes]
-        shift = self._cur_depth
+        shift = self.call_depth.get(id(node), self._cur_depth)
 
         def subst(n):
             if n[0] == "param":
@@ -540,10 +662,11 @@ class Norm:
         if blk.get("k") != "Block":
             return self._is_mut_local_effect(blk)
         b = blk["b"]
-        items = [st["e"] for st in b["stmts"] if st.get("k") in ("SSemi", "SExpr")]
+        stmts = [st for st in b["stmts"] if _continue_guard(st) is None]      # plain `continue` filters are guards of the effects after them
+        items = [st["e"] for st in stmts if st.get("k") in ("SSemi", "SExpr")]
         if not allow_lets and any(st.get("k") == "SLet" for st in b["stmts"]):
             return False
-        if any(st.get("k") == "SLet" and "els" in st for st in b["stmts"]):
+        if any(st.get("k") == "SLet" and "els" in st for st in stmts):
             return False
         if "expr" in b:
             items.append(b["expr"])
@@ -607,6 +730,10 @@ class Norm:
                     t = t[3][acc]
                 elif t[0] == "call" and t[1] == v and acc.isdigit() and int(acc) < len(t[2]):
                     t = t[2][int(acc)]
+                elif t[0] == "call" and t[1] in ("slice::split_first",) and len(t[2]) == 1 and v in ("v1::Some", "Option::Some") and acc == "0":
+                    t = ("tup", [("index", t[2][0], ("lit", "0")), ("index", t[2][0], _RANGE_FROM_1)])     # xs.split_first() = (xs[0], xs[1..])
+                elif t[0] == "call" and t[1] in ("slice::first", "Vec::first") and len(t[2]) == 1 and v in ("v1::Some", "Option::Some") and acc == "0":
+                    t = ("index", t[2][0], ("lit", "0"))
                 else:
                     t = ("proj", t, v, acc)
             elif step[0] == "index":
@@ -705,6 +832,7 @@ class Norm:
                     return inl
             recv = self._t(e["recv"])
             args = [self._t(a) for a in e["args"]]
+            name = {"Vec::is_empty": "slice::is_empty", "Vec::len": "slice::len", "Vec::first": "slice::first", "Vec::last": "slice::last"}.get(name, name)
             if name == "Option::ok_or" and len(args) == 1:
                 return ("call", "ok_or", [recv, args[0]])
             if name == "Option::ok_or_else" and len(args) == 1 and args[0][0] == "closure" and args[0][2] == 0:
@@ -713,6 +841,34 @@ class Norm:
                 return ("if", recv[2][0], recv[2][1], ("tpl", "quote", "", []))
             if name in TRANSPARENT and not args:
                 return recv
+            if name == "Iterator::collect" and not args and recv[0] == "call" and recv[1] == "Iterator::filter_map" and len(recv[2]) == 2 \
+                    and recv[2][1][0] == "closure" and recv[2][1][2] == 1 and peel_ty(e.get("ty", "")).startswith(("std::vec::Vec<", "alloc::vec::Vec<")):
+                # it.filter_map(|x| O.map(|y| V)).collect::<Vec<_>>()  ==  for x in it { if let Some(y) = O { push V } }
+                it, clo = recv[2]
+                d = clo[1]
+                el = ("elem", it)
+                body = rewrite(clo[3], lambda n: el if n[0] == "cparam" and n[1] == d and n[2] == 0 else None)
+                part = None
+                if body[0] == "call" and body[1] == "Option::map" and len(body[2]) == 2 and body[2][1][0] == "closure" and body[2][1][2] == 1:
+                    O, c2 = body[2]
+                    d2 = c2[1]
+                    inner = ("proj", O, "v1::Some", "0")
+                    V = rewrite(c2[3], lambda n: inner if n[0] == "cparam" and n[1] == d2 and n[2] == 0 else None)
+                    part = ("for", it, ("if", _let("v1::Some($)", O), V, ("lit", "()")))
+                elif body[0] == "call" and body[1] == "then" and len(body[2]) == 2:
+                    part = ("for", it, ("if", body[2][0], body[2][1], ("lit", "()")))
+                if part is not None:
+                    return ("call", "vec+", [part])
+            if name == "Iterator::for_each" and len(args) == 1 and args[0][0] == "closure" and args[0][2] == 1:
+                # it.for_each(|x| f(x))  ==  for x in it { f(x) }
+                d = args[0][1]
+                el = ("elem", recv)
+
+                def sub3(n):
+                    if n[0] == "cparam" and n[1] == d and n[2] == 0:
+                        return el
+                    return None
+                return ("for", recv, rewrite(args[0][3], sub3))
             if name == "bool::then" and len(args) == 1 and args[0][0] == "closure" and args[0][2] == 0:
                 return ("call", "then", [recv, args[0][3]])      # c.then(|| x)  ==  if c {Some(x)} else {None}
             if name == "bool::then_some" and len(args) == 1:
@@ -753,7 +909,14 @@ class Norm:
                         if not _is_unit(et) and not _diverges(et):
                             effs.append(et)
                 elif sk == "SLet" and "els" in st:
-                    early.append((("iflet-not", pat_repr(st["pat"]), self._t(st["init"])), self._t({"k": "Block", "b": st["els"], "ty": "!x"})))
+                    lc = _let(pat_repr(st["pat"]), self._t(st["init"]))
+                    if lc[0] == "iflet":
+                        lc = ("iflet-not", lc[1], lc[2])
+                    elif lc[0] == "op" and lc[1] == "Not":
+                        lc = lc[2][0]
+                    else:
+                        lc = ("op", "Not", [lc])
+                    early.append((lc, self._t({"k": "Block", "b": st["els"], "ty": "!x"})))
             if "expr" in b:
                 tail = self._t(b["expr"])
             else:
@@ -791,7 +954,21 @@ class Norm:
             arms = []
             for a in e["arms"]:
                 g = self._t(a["guard"]) if "guard" in a else None
-                arms.append((pat_repr(a["pat"]), g, self._t(a["body"])))
+                bt = self._t(a["body"])
+                alts = _or_alternatives(a["pat"])
+                if len(alts) > 1 and all(_ctor_of(q) for q in alts):
+                    # `A{x} | B{x} => body` is two arms with the same body (bindings projected from their own variant)
+                    ctors = {_ctor_of(q) for q in alts}
+                    for q in alts:
+                        mine = _ctor_of(q)
+
+                        def ren(n, mine=mine):
+                            if n[0] == "proj" and n[2] in ctors and n[2] != mine:
+                                return ("proj", n[1], mine, n[3])
+                            return None
+                        arms.append((pat_repr(q), rewrite(g, ren) if g else g, rewrite(bt, ren)))
+                    continue
+                arms.append((pat_repr(a["pat"]), g, bt))
             # `match x { v => body }` single irrefutable binding arm (format_ident! etc.)
             if len(arms) == 1 and e["arms"][0]["pat"].get("k") == "Bind":
                 return arms[0][2]
@@ -806,11 +983,9 @@ class Norm:
                 return ("call", "then", [c, t[2][0]])
             if c[0] == "iflet":
                 return self._iflet(c[1], c[2], t, el)
-            if t == ("lit", True) and el == ("lit", False):
-                return c
-            return ("if", c, t, el)
+            return _mk_if(c, t, el)
         if k == "Let":
-            return ("iflet", pat_repr(e["pat"]), self._t(e["init"]))
+            return _let(pat_repr(e["pat"]), self._t(e["init"]))
         if k == "Closure":
             d = self.closure_depth.get(e["def"], 1)
             old = self._cur_depth
@@ -904,7 +1079,7 @@ def _unreturn(t):
         for c, v in reversed(t[1]):
             if v[0] == "ret":
                 if c[0] == "iflet-not":
-                    res = ("if", ("iflet", c[1], c[2]), res, _unreturn(v[1]))
+                    res = ("if", _let(c[1], c[2]), res, _unreturn(v[1]))
                 else:
                     res = ("if", c, _unreturn(v[1]), res)
             else:
@@ -1009,6 +1184,85 @@ def pat_repr(p):
     if k == "PGuard":
         return pat_repr(p["p"]) + " if .."
     return str(k)
+
+
+def _only_continue(blk):
+    blk = strip(blk)
+    if blk.get("k") == "Continue":
+        return True
+    if blk.get("k") == "Block":
+        blk = blk["b"]
+    if "stmts" not in blk:
+        return False
+    items = [st["e"] for st in blk["stmts"] if st.get("k") in ("SSemi", "SExpr")]
+    if len(items) != len(blk["stmts"]):
+        return False
+    if "expr" in blk:
+        items.append(blk["expr"])
+    return len(items) == 1 and strip(items[0]).get("k") == "Continue" and "label" not in strip(items[0])
+
+
+def _continue_guard(st):
+    """the guard a loop-body statement imposes on the statements after it, if it is a plain `continue` filter"""
+    sk = st.get("k")
+    if sk in ("SSemi", "SExpr"):
+        inner = strip(st["e"])
+        if inner.get("k") == "If" and "else" not in inner and _only_continue(inner["then"]):
+            return ("if", inner["cond"], False)
+    elif sk == "SLet" and "els" in st and _only_continue(st["els"]):
+        return ("arm", st["init"], pat_repr(st["pat"]))
+    return None
+
+
+def _has_loop_exit(body):
+    """continue / break / return / `?` directly in a loop body (closures excluded): the loop is not a plain map over its iterator"""
+    stack = [body]
+    b0 = strip(body)
+    if b0.get("k") == "Block":
+        # top-level `continue` filters are accounted for as guards of the statements after them
+        stack = []
+        for st in b0["b"]["stmts"]:
+            if _continue_guard(st) is not None:
+                stack.append(st["e"]["cond"] if st.get("k") in ("SSemi", "SExpr") else st["init"])
+            else:
+                stack.append(st)
+        if "expr" in b0["b"]:
+            stack.append(b0["b"]["expr"])
+    while stack:
+        n = stack.pop()
+        if not isinstance(n, dict):
+            continue
+        k = n.get("k")
+        if k in ("Continue", "Break", "Ret"):
+            return True
+        if k == "Closure":
+            continue
+        if k == "Match" and str(n.get("src", "")).startswith("TryDesugar"):
+            stack.append(n["scrut"])       # `?` is handled by the callers (hoisted)
+            continue
+        if k == "Match" and as_for_loop(n) is not None:
+            fl = as_for_loop(n)
+            stack.append(fl[1])
+            stack.append(fl[2])            # the desugared `break` of an inner loop is not an exit of this one
+            continue
+        stack.extend(children(n))
+    return False
+
+
+def _or_alternatives(p):
+    while p.get("k") in ("PRef", "PBox", "PDeref"):
+        p = p["p"]
+    return list(p["ps"]) if p.get("k") == "Or" else [p]
+
+
+def _ctor_of(p):
+    while p.get("k") in ("PRef", "PBox", "PDeref"):
+        p = p["p"]
+    if p.get("k") in ("PTupleStruct", "PStruct"):
+        return cshort(p.get("path", "?"))
+    if p.get("k") == "PExpr" and p["e"].get("k") != "PLit":
+        return cshort(p["e"].get("path", "?"))
+    return None
 
 
 def pat_variants(p):
